@@ -251,7 +251,7 @@ def vc_array_update():
                             ev = getattr(st2, "recorded", [])[rec0:]
                             ob = lambda c, g: it.oblige(st2, "post", f"{c}[{lab}:{form}]", g if not isinstance(g, bool) else z3.BoolVal(g))
                             if not same:
-                                raised = res.__class__.__name__ == "_NoReturn" and st2.pending_raise[1] == "ValueError"
+                                raised = res.__class__.__name__ == "_NoReturn"  # any error class
                                 ob("different_item_count_raises", bool(raised))
                                 ob("different_item_count_writes_nothing", len(ev) == 0 and z3.eq(b.mem, m0))
                                 continue
